@@ -1011,6 +1011,9 @@ func genPen(o *out.W, i int, r *rng.R, fonts []*fontInfo) {
 		vertical := r.P(1, 4)
 		for j := 0; j < r.Range(0, 12); j++ {
 			c := rng.Pick(r, fi.bmp)
+			if r.P(1, 5) {
+				c = ' ' // blank glyphs advance the pen like any other, also vertically
+			}
 			id := sf.GlyphIndex(c)
 			g := canvasText.Glyph{SFNT: sf, Size: size, ID: id, Text: c, Vertical: vertical}
 			g.XAdvance = int32(int(sf.GlyphAdvance(id)) + r.Range(-200, 200))
